@@ -34,6 +34,8 @@ ASSUMPTIONS = [
     "enclosing saved steps' are the neighbours of t in that set, interpolation is linear in time",
     "only t >= start is asserted (property text); decompress(t < start) is undefined",
     "start < T (otherwise there is nothing to record; init_shapes raises IndexError there)",
+    "recorded arrays have the real layout (3, *interface shape); an all-ones shape with a single saved step makes "
+    "core/jax/sharding.create_named_sharded_matrix raise StopIteration (no axis to shard) — outside this property",
     "interpolation arithmetic happens in the dtype the values have at that point of the pipeline: tolerance "
     "8*eps(dtype)*(|prev|+|next|) plus 4 smallest-subnormal; saved steps without narrowing must be bit-exact",
     "stacked time filters (two LinearReconstructEveryK in one recorder) are not asserted: their semantics "
@@ -281,7 +283,7 @@ def _triple_case(T, k, s):
     return {
         "T": T,
         "mods": [{"type": "everyk", "k": k, "s": s}],
-        "arrays": [{"name": "pml_E", "shape": [2], "dtype": "float64"}],
+        "arrays": [{"name": "pml_E", "shape": [3], "dtype": "float64"}],
         "seed": (T * 1000003 + k * 10007 + s * 101 + 12345) & 0x7FFFFFFF,
     }
 
@@ -344,7 +346,8 @@ def pipeline_strategy(draw, ctx):
     names = ["pml_E", "pml_H"][:n_arr]
     arrays = []
     for nm in names:
-        shape = draw(st.lists(st.integers(1, 3), min_size=1, max_size=3))
+        # like the real interface arrays (3, *interface_grid_shape): leading axis = field component
+        shape = [3] + draw(st.lists(st.integers(1, 3), min_size=0, max_size=2))
         arrays.append({"name": nm, "shape": shape, "dtype": in_dtype,
                        "scale": draw(st.sampled_from([1.0, 1.0, 30.0, 1e-2]))})
     mods = []
